@@ -12,16 +12,16 @@ func init() { props["C14"] = runC14 }
 
 type metaIntent struct {
 	OGTitle, OGType, OGURL, OGImage, OGDesc, OGSite string
-	OGSection, OGPublished                         string
-	Schema                                         bool
-	SHeadline, SURL, SDesc, SAuthor, SPublisher    string
-	SAuthorNested                                  bool
-	SPublished, SModified, SSection                string
-	IETitle, IECopyright, IEByline, IEDateline     string
-	IEDisplayDate                                  string
-	IEOptOut                                       string // "", "true", "false", "TRUE"
-	IEInBody                                       bool
-	Shuffle                                        uint64
+	OGSection, OGPublished                          string
+	Schema                                          bool
+	SHeadline, SURL, SDesc, SAuthor, SPublisher     string
+	SAuthorNested                                   bool
+	SPublished, SModified, SSection                 string
+	IETitle, IECopyright, IEByline, IEDateline      string
+	IEDisplayDate                                   string
+	IEOptOut                                        string // "", "true", "false", "TRUE"
+	IEInBody                                        bool
+	Shuffle                                         uint64
 }
 
 func (m metaIntent) HTML(body string) string {
@@ -120,9 +120,9 @@ func (m metaIntent) HTML(body string) string {
 
 type expSource struct {
 	Title, Type, URL, Desc, Publisher, Copyright, Author string
-	HasArticle                                            bool
-	Art                                                   data.MarkupArticle
-	OptOut                                                bool
+	HasArticle                                           bool
+	Art                                                  data.MarkupArticle
+	OptOut                                               bool
 }
 
 // expectedInfo is the property restated on the generator's intent: per-source values as
